@@ -69,7 +69,7 @@ def ifaceOfJson (j : Json) : Except String (String × Option IfaceCfg) := do
   let cfg ← optCfg j "config"
   let entries ← match Driver.fldOpt j "configs" with
     | none => pure []
-    | some a => do (← a.getArr?).toList.mapM cfgOfJson
+    | some a => do (← a.getArr?).toList.mapM (fun x => if x.isNull then cfgOfJson (Json.mkObj []) else cfgOfJson x)
   pure (name, some ⟨cfg, entries⟩)
 
 def pkgOfJson (j : Json) : Except String (String × Option PkgCfg) := do
